@@ -8,9 +8,13 @@
      [lu_exec] below is an executable instance (Gaussian elimination with partial pivoting, LAPACK getrf
      pivot order, then B0 = A * inv(A[I0]) by Gauss-Jordan), used for the exact runs over Qc.
    * [maxvol_rect] comes in two variants selected by [masked]:
-       masked = false : the code as pinned      ( i = np.argmax(F) )
-       masked = true  : the repaired code       ( arg-max over the rows not selected so far )
-     They differ only when every remaining residual F is <= 0 and dr_min forces growth (finding S1). *)
+       masked = true  : THE CODE (repaired, /repo cac7db0)   i = np.argmax(np.where(S > 0, F, -1.))
+       masked = false : the code as pinned                    i = np.argmax(F)
+     [maxvol_rect] is the first one; [maxvol_rect_pinned] is kept only as the subject of the machine-checked
+     finding S1 (duplicate rows when every remaining residual is 0 and dr_min forces growth).
+     [argmax_mask] (first maximum among the unselected rows) is the mathematical reading of the repaired line;
+     Proofs/MaxvolRectP.v shows that the literal where-form computes it whenever some row is unselected and
+     every unselected residual is > -1 (in the loop: F = squared row norm >= 0). *)
 From Coq Require Import List Arith Lia PeanoNat Bool ZArith.
 From TV Require Import Num.Ops Lin.Tab Lin.BigSum Lin.Mat.
 Import ListNotations.
@@ -83,9 +87,12 @@ Definition maxvol (lu_init : lu_t) (A : mat T) (e : T) (k : nat) : result (list 
 (* ---------- maxvol_rect ---------- *)
 Definition rownorm2 (B : mat T) (a : nat) : T := bsum K (mc B) (fun j => mg B a j * mg B a j).
 
+(*  np.where(S > 0, F, -1.)  *)
+Definition where_mask (s : nat -> bool) (f : nat -> T) (a : nat) : T := if s a then f a else oopp K 1.
+(*  masked = true :  i = np.argmax(np.where(S > 0, F, -1.))      masked = false (pinned):  i = np.argmax(F)  *)
 Definition rect_argmax (masked : bool) (Sm : list bool) (F : list T) (n : nat) : nat :=
   if masked
-  then match argmax_mask (fun a => nth a Sm false) (fun a => nth a F 0) n with Some i => i | None => O end
+  then argmaxf (where_mask (fun a => nth a Sm false) (fun a => nth a F 0)) n
   else argmaxf (fun a => nth a F 0) n.
 
 (*  v = B.dot(B[i]); l = 1. / (1 + v[i])
@@ -101,7 +108,7 @@ Definition mask_off (Sm : list bool) (i : nat) : list bool :=
   tab (length Sm) (fun a => if Nat.eqb a i then false else nth a Sm false).
 
 (*  for k in range(r, r_max):   (k = length I; steps = r_max - k)
-        i = np.argmax(F)
+        i = np.argmax(np.where(S > 0, F, -1.))          [pinned: i = np.argmax(F)]
         if k >= r_min and F[i] <= e*e: break
         I[k] = i; S[i] = 0; ...                                                            *)
 Fixpoint rect_loop (masked : bool) (e2 : T) (r_min steps : nat)
@@ -152,9 +159,9 @@ Definition maxvol_rect_full (masked : bool) (lu_init : lu_t) (A : mat T) (e : T)
 Definition maxvol_rect_gen (masked : bool) (lu_init : lu_t) A e dr_min dr_max e0 k0 : result (list nat * mat T) :=
   rmap fst (maxvol_rect_full masked lu_init A e dr_min dr_max e0 k0).
 
-(* the code as pinned, and the repaired code *)
-Definition maxvol_rect_pinned := maxvol_rect_gen false.
+(* the code (repaired arg-max), and the code as pinned (subject of finding S1 only) *)
 Definition maxvol_rect := maxvol_rect_gen true.
+Definition maxvol_rect_pinned := maxvol_rect_gen false.
 
 (* ---------- utils._maxvol ---------- *)
 Definition maxvol_dispatch (masked : bool) (lu_init : lu_t) (A : mat T) (tau : T) (dr_min dr_max : Z)
